@@ -1179,6 +1179,28 @@ def gen_match_rule(rng, prog, carets=False, no_pre=False):
     return r
 
 
+def gen_big_fsm_program(rng, nrules, length):
+    """One substitution pass with `nrules` different rules of `length` items each over two two-glyph classes, plus a rule
+    with a class that splits both (so that every item covers two machine columns with identical successors): the state
+    machine has about nrules*length/2 states after merging and about twice as many while it is built."""
+    prog = Prog()
+    prog.nglyphs = 12
+    prog.font, _g, prog.cmap = ttf.simple_font(12)
+    prog.classes = {"cA": [2, 3], "cB": [4, 5], "cSplit": [2, 4], "gZ": [6], "gOut": [7], "gOut2": [8]}
+    prog.class_order = list(prog.classes)
+    prog.class_defs = {k: glyph_list_text(v) for k, v in prog.classes.items()}
+    rules = [Rule([Item(cls="gZ", mod=True, out=("cls", "gOut2", None)), Item(cls="cSplit")])]
+    seen = set()
+    while len(rules) < nrules + 1:
+        w = tuple(rng.choice("AB") for _ in range(length))
+        if w in seen:
+            continue
+        seen.add(w)
+        rules.append(Rule([Item(cls="c" + w[0], mod=True, out=("cls", "gOut", None))] + [Item(cls="c" + ch) for ch in w[1:]]))
+    prog.tables.append(("sub", [rules]))
+    return prog
+
+
 def add_pos_table_first(rng, prog):
     """A positioning table that uses classes of the substitution rules and is written BEFORE the substitution table."""
     used = [it.cls for (_t, ps) in prog.tables for rules in ps for r in rules for it in r.items if it.cls not in (None, "ANY", "#")]
